@@ -188,6 +188,9 @@ func builtInSources(c *core.Ctx) {
 
 // constant values with lists nested at every position, after earlier lists of the same document
 var nestedListSchemaTexts = []string{
+	// empty lists between their delimiters (none is derivable)
+	`type T { f(): Int }`, `directive @d() on FIELD`, `type T @d() { f: Int }`, `input I {}`, `enum E {}`, `type T {}`, `schema {}`, `interface I { }`, `extend type T {}`, `extend input I { }`, `union U =`, `type T implements { f: Int }`,
+	`directive @d on`, `type T { f( , ): Int }`,
 	// every value of a type-system document is constant: a variable anywhere is not derivable
 	`type T @d(x: $v) { f: Int }`, `type T { f(a: Int = $v): Int }`, `directive @d(a: Int = $v) on FIELD`, `enum E { A @d(x: $v) }`, `type T { f(a: Int @d(x: $v)): Int }`,
 	`scalar S @d(x: [$v])`, `input I { f: Int = {k: $v} }`, `extend schema @d(x: $v)`, `schema @d(x: $v) { query: Q }`, `interface I { f: Int @d(x: $v) }`, `union U @d(x: $v) = A`,
